@@ -690,6 +690,9 @@ func runParent(spec Spec, tier string, seed int64) int {
 		cov["samples"] = []any{"(no sample recorded)"}
 	}
 	edir := filepath.Join(vdir, "evidence")
+	if d := os.Getenv("VERIF_EVIDENCE_DIR"); d != "" {
+		edir = d // used when the checks are pointed at a seeded (broken) tree
+	}
 	os.MkdirAll(edir, 0o755)
 	js, _ := json.MarshalIndent(ev, "", " ")
 	if err := os.WriteFile(filepath.Join(edir, spec.Prop+".json"), append(js, '\n'), 0o644); err != nil {
